@@ -4,7 +4,7 @@ import ast
 
 from ..program import AnalysisError, walk_local, dotted
 from ..analysis import Spec, src
-from ..rules import (substitute_locals, guard_paths, literal_text, GWF, EXC, mpt, need_func, stores_to, is_const,
+from ..rules import (canon, substitute_locals, guard_paths, literal_text, GWF, EXC, mpt, need_func, stores_to, is_const,
                      parent_map, raise_class)
 from . import common
 from .c12 import _first_exit
@@ -175,14 +175,24 @@ def worker_shape(prog, an, rep):
                       'statement: an exception kills the worker thread')
         return
     t = tries[0]
+    # job = self.task_queue.get(), recorded as status['current job'] (one
+    # chained assignment or two statements)
     job = None
+    recorded = False
     for n in walk_local(f.node, include_root=False):
         if isinstance(n, ast.Assign) and \
                 src(n.value) == 'self.task_queue.get()':
             tg = [src(x) for x in n.targets]
-            if "self.status['current job']" in tg:
-                job = [x for x in tg if x != "self.status['current job']"]
-                job = job[0] if job else None
+            names = [x for x in tg if x != "self.status['current job']"]
+            job = names[0] if names else job
+            recorded = recorded or "self.status['current job']" in tg
+    for n in walk_local(f.node, include_root=False):
+        if isinstance(n, ast.Assign) and any(
+                src(x) == "self.status['current job']" for x in n.targets) \
+                and canon(f, n.value) == 'self.task_queue.get()':
+            recorded = True
+    if not recorded:
+        job = None
     rep.evaluated()
     rep.check(job is not None, R, f.qname + ': job = status[current job] = '
               'task_queue.get()', f.where(), 'the dequeued job is no longer '
